@@ -206,7 +206,12 @@ def run_schedule(scn, plan=(), seed=None, switch_prob=0.0, record=False):
             all(key in st['seen'] for key in st['fired']) and (scn.get('via') != 'detached' or len(st.get('firers_finished', ())) == nf)
 
     def stopper():
-        S.block(('cond', all_done), 'stopper-wait')
+        if scn.get('stop_any_time'):
+            # (used by C08's scheduler batch) stop() comes whenever the schedule says so, once the manager is running and the firers have
+            # returned - whatever they fired is still pending or being dispatched
+            S.block(('cond', lambda: bool(app.running) and len(st['fired']) == nf * k and all(v == 'returned' for v in st['fired'].values())), 'stopper-wait')
+        else:
+            S.block(('cond', all_done), 'stopper-wait')
         st['done'] = True
         if 'app2' in st:
             st['app2'].stop()
